@@ -49,6 +49,20 @@ DECLS = {
 FEATS = ["dser", "dde", "json", "async", "web", "rk_rand", "rk_regex", "rk_tokio", "rk_sj", "ru", "std"]
 
 
+def derive_form(text, feat, form):
+    """the same serde derive written in the form the case asks for (spec/MC_Manifest.tla DeriveForms)"""
+    if feat not in ("dser", "dde") or form == "alone":
+        return text
+    d = "Serialize" if feat == "dser" else "Deserialize"
+    if form == "listed":
+        return text.replace(f"@derive({d})", f"@derive(Debug, Clone, {d})")
+    if form == "stacked":
+        return text.replace(f"@derive({d})", f"@derive(Debug)\n@derive({d})")
+    if form == "class":
+        return text.replace("pub model", "pub class")
+    raise ValueError(form)
+
+
 def render(case):
     """-> (entry file name, {relative path: text})"""
     place = case["place"]
@@ -61,7 +75,7 @@ def render(case):
         for f in feats:
             lines += IMPORTS.get(f, [])
         lines += extra_imports
-        body = [DECLS[f].replace("{S}", suffix.upper()).replace("{s}", suffix) for f in feats if f in DECLS]
+        body = [derive_form(DECLS[f], f, case.get("form", "alone")).replace("{S}", suffix.upper()).replace("{s}", suffix) for f in feats if f in DECLS]
         return "\n".join(lines) + ("\n\n" if lines else "") + "\n".join(body) + ("\n" if body else "") + tail
 
     files = {}
